@@ -246,6 +246,13 @@ package cisco
 //vc:  invariant[C18] 1 "for i, bName := range b.ref" true
 //vc:  assert[C18] at "isReferenced[refCmd] = true"#2 @rawObjectMergedOnce ab.b.isRaw ==> !((refCmd in isReferenced) && isReferenced[refCmd])
 
+// the same for the tables of mergeCmds (commands of one name) and
+// mergeCryptoCommon (crypto map entries of one sequence number)
+//vc:func mergeCmds
+//vc:  invariant[C18] 2 "for _, b := range bl" @lookupTableStable mapvals(m) == loopold(mapvals(m)) && mapdom(m) == loopold(mapdom(m))
+//vc:func mergeCryptoCommon
+//vc:  invariant[C18] 2 "for _, bCmd := range bl" @lookupTableStable mapvals(m) == loopold(mapvals(m)) && mapdom(m) == loopold(mapdom(m))
+
 // mergeSubCmds: a sub-command that exists only in the other part (raw / IPv6)
 // is adopted by the Netspoc command and must name it as its parent: an
 // incremental change of that sub-command is sent under the parent's name.
